@@ -7,6 +7,7 @@ import (
 	"testing"
 	"time"
 
+	"google.golang.org/protobuf/proto"
 	"pgregory.net/rapid"
 
 	"github.com/smart-core-os/sc-api/go/types"
@@ -205,5 +206,103 @@ func TestLossySubscribersSideBySide(t *testing.T) {
 		lib.Ev.Case(nt, func() any {
 			return fmt.Sprintf("%d lossy Collection.Pull subscribers at different paces: %s", nsubs, strings.Join(hist, " "))
 		})
+	})
+}
+
+// TestLossyManyIDs: a lossy subscriber that is not receiving while thousands of different items are written: the writes
+// complete without waiting for it, and once it receives again its folded view is the collection (nothing about the
+// property depends on how many items there are).
+func TestLossyManyIDs(t *testing.T) {
+	rapid.Check(t, func(t *rapid.T) {
+		n := rapid.SampledFrom([]int{300, 1024, 1025, 1500, 3000}).Draw(t, "ids")
+		masked := rapid.Bool().Draw(t, "masked")
+		c := resource.NewCollection()
+		ctx, cancel := context.WithCancel(context.Background())
+		defer cancel()
+		var ropts []resource.ReadOption
+		if masked {
+			ropts = append(ropts, resource.WithReadPaths(&testproto.ForeignMessage{}, "c"))
+		}
+		ch := c.Pull(ctx, ropts...)
+		deleted := map[int]bool{}
+		err, returned := guarded(func() error {
+			for i := 0; i < n; i++ {
+				if _, err := c.Add(fmt.Sprintf("id-%05d", i), &testproto.ForeignMessage{C: int32(i), D: 7}); err != nil {
+					return err
+				}
+			}
+			// some churn on top: delete and re-add (REPLACE when merged), update
+			for i := 0; i < n; i += 97 {
+				id := fmt.Sprintf("id-%05d", i)
+				if _, err := c.Delete(id); err != nil {
+					return err
+				}
+				if i%2 == 0 {
+					if _, err := c.Add(id, &testproto.ForeignMessage{C: int32(-i - 1), D: 7}); err != nil {
+						return err
+					}
+				} else {
+					deleted[i] = true
+				}
+			}
+			_, err := c.Add("zz-sentinel", &testproto.ForeignMessage{C: -1, D: 7})
+			return err
+		})
+		if !returned {
+			t.Fatalf("writing %d items did not finish within %v while a lossy subscriber was not receiving (writers must not wait for slow readers)", n, guard)
+		}
+		if err != nil {
+			t.Fatalf("write failed: %v", err)
+		}
+		view := map[string]int32{}
+		for events := 0; ; events++ {
+			if v, ok := view["zz-sentinel"]; ok && v == -1 {
+				break
+			}
+			if events > 3*n+10 {
+				t.Fatalf("sentinel not received after %d events", events)
+			}
+			select {
+			case e, ok := <-ch:
+				if !ok {
+					t.Fatalf("stream closed")
+				}
+				for _, m := range []proto.Message{e.OldValue, e.NewValue} {
+					if masked && m != nil && m.(*testproto.ForeignMessage).D != 0 {
+						t.Fatalf("event {%s %v} carries a value outside the read mask: %v", e.Id, e.ChangeType, m)
+					}
+				}
+				if e.ChangeType == types.ChangeType_REMOVE {
+					delete(view, e.Id)
+				} else {
+					view[e.Id] = e.NewValue.(*testproto.ForeignMessage).C
+				}
+			case <-time.After(guard):
+				t.Fatalf("no event within %v although %d changes are outstanding (view has %d items)", guard, n, len(view))
+			}
+		}
+		want := 1
+		for i := 0; i < n; i++ {
+			id := fmt.Sprintf("id-%05d", i)
+			wantC := int32(i)
+			if i%97 == 0 {
+				if deleted[i] {
+					if _, ok := view[id]; ok {
+						t.Fatalf("folded view still has %s which was deleted", id)
+					}
+					continue
+				}
+				wantC = int32(-i - 1)
+			}
+			want++
+			if got, ok := view[id]; !ok || got != wantC {
+				t.Fatalf("folded view has %s=%v(%v), the collection has %v", id, got, ok, wantC)
+			}
+		}
+		if len(view) != want {
+			t.Fatalf("folded view has %d items, the collection %d", len(view), want)
+		}
+		lib.Ev.Class("api:lossy subscriber, many ids")
+		lib.Ev.Case(fmt.Sprintf("many|%d|%v", n, masked), func() any { return fmt.Sprintf("%d items written while a lossy subscriber (masked=%v) was stalled", n, masked) })
 	})
 }
